@@ -169,3 +169,76 @@ class BlockSpace(Space):
             yield (ci, bs, joins, width, False)
         if width != self.widths[0]:
             yield (ci, bs, joins, self.widths[0], sem)
+
+
+# ---------------------------------------------------------------------------------------------------------------------
+# Legal but unusual spellings of the same constructs (a second alphabet, explored as singles and in pairs with the core
+# blocks in both orders): the formatter normalises them, and must not change what they mean.
+UNUSUAL = [
+    ("ul-tab", ["-\ta", "-\tb"]),
+    ("ul-wide", ["-   a", "-   b"]),
+    ("ul-star-plus", ["* a", "+ b"]),
+    ("ol-9digits", ["123456789. a"]),
+    ("ol-paren-nested", ["1) a", "   2) b"]),
+    ("task-upper", ["- [X] a"]),
+    ("setext-long", ["H", "=========="]),
+    ("setext-2line", ["H1", "H2", "---"]),
+    ("atx-empty", ["#"]),
+    ("atx-trailing", ["# H #  "]),
+    ("atx-indented", ["   ## H"]),
+    ("html-comment-block", ["<!--", "c", "-->"]),
+    ("html-pi", ["<?php", "x", "?>"]),
+    ("html-script", ["<script>", "", "x", "</script>"]),
+    ("html-div-md", ["<div>", "", "*a*", "", "</div>"]),
+    ("def-multiline", ["[x]:", "  u", "  'title'"]),
+    ("def-title-nextline", ["[x]: u", '"t"']),
+    ("table-noedge-align", ["a|b", ":-|-:", "c|d"]),
+    ("table-short-row", ["| a | b |", "|---|---|", "| c |"]),
+    ("entity", ["&amp; &#35; &copy; &nosuch;"]),
+    ("escapes", ["\\* \\_ \\` \\[ \\] \\< \\> \\# \\| \\~ \\\\"]),
+    ("autolink-mail", ["<mailto:a@b.c> <a@b.c>"]),
+    ("strike", ["~~a~~ ~b~"]),
+    ("emph-intraword", ["a_b_c a*b*c __d__e"]),
+    ("backslash-end", ["aa\\"]),
+    ("fn-def-list", ["[^1]: a", "", "    - b", "    - c"]),
+    ("bq-code", ["> ```", "> x", "> ```"]),
+    ("bq-empty", [">"]),
+    ("ul-code-first", ["- ```", "  x", "  ```"]),
+    ("ul-hr", ["- ---"]),
+    ("alert-multi", ["> [!WARNING]", "> a", ">", "> - b"]),
+    ("nbsp", ["a\u00a0b c"]),
+    ("cjk", ["\u4e2d\u6587abc \u4e2d\u6587"]),
+    ("code-tab-indented", ["\tx"]),
+    ("code-tilde-info-bt", ["~~~ a`b", "x", "~~~"]),
+    ("hr-long", ["- - - - -"]),
+    ("hr-indented", ["   ***"]),
+    ("image-ref", ["![i][x]", "", "[x]: u"]),
+    ("link-nested-brackets", ["[a [b] c](u)"]),
+    ("code-span-bt-edge", ["`` `a` ``  ` b `"]),
+]
+CORE_NAMES = ("p", "p2", "h1", "setext2", "ul", "ul-loose", "ol", "ul-nested", "bq", "bq-lazy", "code", "code-indented", "table", "hr-",
+              "def", "fn", "tag", "html", "hardbreak")
+
+
+class UnusualSpace(BlockSpace):
+    """Singles of UNUSUAL, and every pair (unusual, x) / (x, unusual) with x ranging over UNUSUAL and the core blocks."""
+
+    def __init__(self, prop, name, oracle, ctxs, widths, modes=(False, True), floors=None):
+        blocks = UNUSUAL + [b for b in BLOCKS if b[0] in CORE_NAMES]
+        super().__init__(prop, name, oracle, ctxs, 2, widths, modes=modes, full_upto=2, floors=floors, blocks=blocks)
+        self.nu = len(UNUSUAL)
+
+    def cases(self):
+        n = len(self.blocks)
+        for ci in range(len(self.ctxs)):
+            for u in range(self.nu):
+                for width in self.widths:
+                    for sem in self.modes:
+                        yield (ci, (u,), (), width, sem)
+            for u in range(self.nu):
+                for x in range(n):
+                    for bs in ((u, x), (x, u)) if x >= self.nu or x > u else ((u, x),) if x == u else ():
+                        for j in ("b", "n"):
+                            for width in self.widths:
+                                for sem in self.modes:
+                                    yield (ci, bs, (j,), width, sem)
